@@ -7,19 +7,20 @@ import numpy as np
 from pyvc.vc import contract, bounded
 
 
-@bounded("C19", "estimators_native", native_runs=14)
+@bounded("C19", "estimators_native", native_runs=26)
 def estimators_native(vc):
     from inference.pdf import GaussianKDE, UnimodalPdf
     from scipy.integrate import quad
     seed = vc.int("seed", lo=0, hi=10 ** 6)
     rng = np.random.default_rng(seed)
     est = vc.choice("estimator", ["kde", "unimodal"])
-    fam = vc.choice("family", ["normal", "skew", "logistic", "left_skew"])
+    fam = vc.choice("family", ["normal", "skew", "logistic", "left_skew", "laplace"])
     n = vc.choice("n", [300, 3000, 6000])          # (UnimodalPdf fits a sub-sample first when n >= 4000)
     scale = 10 ** vc.choice("log10_scale", [-6, 0, 3, 6])
     loc = vc.choice("location_in_sigmas", [0.0, 30.0, 1e4, 1e6]) * scale
     base = {"normal": lambda: rng.normal(size=n), "skew": lambda: rng.gamma(4.0, size=n) / 2.0,
-            "logistic": lambda: rng.logistic(size=n) * 0.55, "left_skew": lambda: 6.0 - rng.gamma(3.0, size=n) / 1.7}[fam]()
+            "logistic": lambda: rng.logistic(size=n) * 0.55, "left_skew": lambda: 6.0 - rng.gamma(3.0, size=n) / 1.7,
+            "laplace": lambda: rng.laplace(size=n) * 0.7}[fam]()
     s = base * scale + loc
     with np.errstate(all="ignore"):
         E = GaussianKDE(s) if est == "kde" else UnimodalPdf(s)
@@ -36,7 +37,13 @@ def estimators_native(vc):
     vc.ensures("density_integrates_to_one", abs(total - 1.0) < 5e-3)
     xs = np.linspace(lo + 0.05 * (hi - lo), hi - 0.05 * (hi - lo), 7)
     c = np.asarray(E.cdf(xs))
-    ci = np.array([np.trapezoid(pg[grid <= v], grid[grid <= v]) for v in xs])
+    # the integral of the density from MINUS INFINITY (the mass below the estimator's own lower limit counts: it is several
+    # percent for heavy-tailed unimodal fits)
+    left_tail = 0.0
+    if est == "unimodal":
+        w_ = hi - lo
+        left_tail = sum(quad(E, a_, b_, limit=200)[0] for a_, b_ in [(lo - 1e3 * w_, lo - 10 * w_), (lo - 10 * w_, lo)])
+    ci = left_tail + np.array([np.trapezoid(pg[grid <= v], grid[grid <= v]) for v in xs])
     vc.ensures("cdf_is_integral_of_density", bool(np.all(np.abs(c - ci) < 5e-3)))
     # ... for evaluation points given in any order, and one at a time
     perm = rng.permutation(xs.size)
